@@ -37,11 +37,11 @@ Definition P_SET : N := Z.to_N c_PMAPPROC_SET.
 Definition P_UNSET : N := Z.to_N c_PMAPPROC_UNSET.
 Definition P_GETPORT : N := Z.to_N c_PMAPPROC_GETPORT.
 Definition P_DUMP : N := Z.to_N c_PMAPPROC_DUMP.
-(* literals of handleCall / makeReply (not package constants; checked by C27_facts against the
-   set of versions the dispatcher accepts) *)
-Definition VERS_LOW : N := 2.
-Definition VERS_HIGH : N := 4.
-Definition supported (vers : N) : bool := (vers =? 2) || (vers =? 3) || (vers =? 4).
+(* literals of handleCall / makeReply, read off the source by astfacts (x_portmap.go): the versions the
+   dispatcher serves and the range makeReply writes after PROG_MISMATCH *)
+Definition VERS_LOW : N := Z.to_N f_pm_mismatch_low.
+Definition VERS_HIGH : N := Z.to_N f_pm_mismatch_high.
+Definition supported (vers : N) : bool := existsb (fun x => vers =? Z.to_N x) f_pm_versions.
 
 (* ---------- option monad ---------- *)
 Definition bind {A B} (o : option A) (f : A -> option B) : option B :=
@@ -163,8 +163,12 @@ Definition classify (c : caller) : addr_class :=
 (* isLoopbackAddr: guard of SET / UNSET in every version (fail closed) *)
 Definition is_loopback_addr (c : caller) : bool :=
   match classify c with CNoAddr | CLoopback => true | CRemote | CUnparseable => false end.
-(* the guard at the top of v2 handleSet / handleUnset: if !isLoopbackAddr(remoteAddr) -> refuse *)
-Definition v2_refused (c : caller) : bool := negb (is_loopback_addr c).
+(* the guard at the top of v2 handleSet / handleUnset: if !isLoopbackAddr(remoteAddr) -> refuse.
+   Whether a handler carries the guard is a fact read off the source (f_pm_*_guarded): if a guard
+   disappears from the code the model follows it and the proof of C27_loopback breaks. *)
+Definition v2_refused (guarded : bool) (c : caller) : bool := guarded && negb (is_loopback_addr c).
+(* `if isLoopbackAddr(remoteAddr) { result = pm.handleRpcbX(r) } else { result = pm.encodeBool(false) }` *)
+Definition rpcb_admitted (guarded : bool) (c : caller) : bool := negb guarded || is_loopback_addr c.
 (* spec-level reading of "a client on a loopback address", written without the code's case analysis:
    an in-process caller, or a caller whose IP address is a loopback address *)
 Definition local_caller (c : caller) : bool :=
@@ -292,13 +296,13 @@ Definition enc_mapping (e : key * N) : list N :=
 Definition v2_dump (reg : registry) : list N := flat_map enc_mapping reg ++ enc32 0.
 (* handleSet / handleUnset *)
 Definition v2_set (reg : registry) (c : caller) (args : list N) : registry * list N :=
-  if v2_refused c then (reg, enc_bool false)
+  if v2_refused f_pm_v2_set_guarded c then (reg, enc_bool false)
   else match args4 args with
        | None => (reg, enc_bool false)
        | Some (p, v, t, port) => (register (p, v, t) port reg, enc_bool true)
        end.
 Definition v2_unset (reg : registry) (c : caller) (args : list N) : registry * list N :=
-  if v2_refused c then (reg, enc_bool false)
+  if v2_refused f_pm_v2_unset_guarded c then (reg, enc_bool false)
   else match args4 args with
        | None => (reg, enc_bool false)
        | Some (p, v, t, _) => (unregister (p, v, t) reg, enc_bool true)
@@ -372,8 +376,8 @@ Definition v2_proc (reg : registry) (c : caller) (proc : N) (args : list N) : op
 Definition rpcb_proc (la : list N) (reg : registry) (c : caller) (proc : N) (args : list N)
   : option (registry * list N) :=
   if proc =? 0 then Some (reg, [])
-  else if proc =? 1 then Some (if is_loopback_addr c then rpcb_set reg args else (reg, enc_bool false))
-  else if proc =? 2 then Some (if is_loopback_addr c then rpcb_unset reg args else (reg, enc_bool false))
+  else if proc =? 1 then Some (if rpcb_admitted f_pm_rpcb_set_guarded c then rpcb_set reg args else (reg, enc_bool false))
+  else if proc =? 2 then Some (if rpcb_admitted f_pm_rpcb_unset_guarded c then rpcb_unset reg args else (reg, enc_bool false))
   else if proc =? 3 then Some (reg, rpcb_getaddr la reg args)
   else if proc =? 4 then Some (reg, rpcb_dump la reg)
   else None.
